@@ -427,3 +427,5 @@ func iptr(i int64) *int64                { return &i }
 
 func httptestGet(u string) *http.Request { return httptest.NewRequest("GET", u, nil) }
 func emitStr(s string) string            { return emit.Str(s) }
+
+func emitBool(b bool) string { return emit.Bool(b) }
